@@ -406,7 +406,7 @@ theorem multiLine_inverted (cfg : Config) (m : MatcherI) (inp : Bytes) (hinv : c
     exact htrail
   constructor
   · rw [multiLine_eq, hpre, mlSpecInv_eq cfg m inp sl hsl hlen]
-    simp [finishRun, finish_eq, Run.events, byteCount, hb2, hev2, hp2, hpos]
+    simp [finishRun, finish_eq, Run.events, byteCount, ite_self, hb2, hev2, hp2, hpos]
   · rw [multiLine_eq, hpre]
     simp [finishRun, finish_eq, allCont]
 
